@@ -420,6 +420,30 @@ def am2q_route(chk, prog):
         chk.error("AM2Q: am2q no longer composes am2DCM and dcm2quat (anchor changed): %s" % calls)
 
 
+def am2dcm_scale(chk, prog):
+    """AM2Q.dcm: am2DCM(a, m, frame) is a proper rotation whose third column is +-a/|a| and which does not depend on the magnitudes of the two samples
+    (AVN with a = s1 E^T g, m = s2 E^T m_ref, s1, s2 > 0 free symbols; compared with the run at s1 = s2 = 1)."""
+    ORI_ = "ahrs/common/orientation.py"
+    f = prog.func(ORI_ + "::am2DCM")
+    chk.touch(f)
+    q = unit_syms("dq")
+    E = E_ref(q)
+    s1, s2 = P.sym("qs1"), P.sym("qs2")
+    P.declare_positive(s1)
+    P.declare_positive(s2)
+    g_ref = np.array([P.ZERO, P.ZERO, P.ONE], dtype=object)
+    m_ref = np.array([P.ZERO, P.sym("mrefn"), P.sym("mrefz")], dtype=object)
+    kw = dict(module=ORI_, function="am2DCM", line=f.node.lineno)
+    for frame in ("ENU", "NED"):
+        def law(frame=frame):
+            oracle = lambda c, i: False if c.op in ("isclose", "allclose") else None      # generic (non-degenerate) samples
+            R1 = to_obj(Interp(prog, oracle=oracle).run(f, [s1 * (E.T @ g_ref), s2 * (E.T @ m_ref)], {"frame": frame}))
+            R0 = to_obj(Interp(prog, oracle=oracle).run(f, [E.T @ g_ref, E.T @ m_ref], {"frame": frame}))
+            return all_of(eq(R1, R0, "am2DCM(s1 a, s2 m) == am2DCM(a, m) [%s]" % frame), eq(R0 @ R0.T, I(3), "R R^T [%s]" % frame), eq(det(R0), P.ONE, "det R [%s]" % frame))
+        chk.ob("AM2Q.dcm", f.ref + "::" + frame, "am2DCM is a proper rotation independent of the magnitudes of the samples [%s]" % frame, law,
+               construct="proper rotation, scale-free [%s]" % frame, **kw)
+
+
 def aqua_tilt(chk, prog):
     """AQUA.tilt: the accelerometer-only fix of AQUA.estimate, on both arms of its `az >= 0` test, returns a quaternion whose matrix maps the vertical onto the
     normalised measurement (in one and the same direction on both arms); with a magnetometer the combined rotation additionally leaves the measured field without
@@ -605,6 +629,7 @@ def run(chk, prog, tier):
     stale_cache(chk, prog)
     pose_div(chk, prog)
     am2q_route(chk, prog)
+    am2dcm_scale(chk, prog)
     aqua_tilt(chk, prog)
     ecompass_frames(chk, prog)
     tilt_representations(chk, prog)
